@@ -45,7 +45,10 @@ func runC05(e *Env) {
 	if hr != nil && len(hr.Params) == 3 {
 		req := hr.Params[2]
 		locks := core.CallsNamed(hr, "udp/client.MutexMap.Lock")
-		lookups := core.CallsNamed(hr, "udp/client.Conn.checkResponseCache")
+		// the cache lookup: through the checkResponseCache wrapper when it exists, else the cache call itself (the wrapper is
+		// analysed as part of handleReq, so both spellings give the getResponseFromCache call)
+		lookups := core.CallsNamed(hr, "udp/client.Conn.getResponseFromCache")
+
 		handles := core.CallsNamed(hr, "udp/client.Conn.handle")
 		if e.want("C05.R1") {
 			ok := len(locks) == 1
@@ -72,27 +75,64 @@ func runC05(e *Env) {
 			} else {
 				lk, lu, hd := locks[0].(ssa.Instruction), lookups[0].(ssa.Instruction), handles[0].(ssa.Instruction)
 				e.R.Check(core.Dominates(lk, lu), "C05.R2", "udp/client.Conn.handleReq:lookup-under-lock", e.pos(lu), "the cache lookup that guards dispatch happens with the per-ID lock held", "the reply cache is consulted before the per-ID lock is taken: a concurrent duplicate misses the cache, waits for the lock and then runs the handler again")
-				e.R.Check(core.Dominates(lu, hd), "C05.R2", "udp/client.Conn.handleReq:lookup-before-dispatch", e.pos(hd), "the lookup dominates the dispatch", "dispatch is reachable without a cache lookup")
+				// for a confirmable request (the type tests forced that way) no path reaches the dispatch without the lookup
+				isReqType := func(v ssa.Value) bool {
+					c, isC := core.Resolve(v).(*ssa.Call)
+					return isC && core.CalleeName(c) == "message/pool.Message.Type" && core.Resolve(core.Arg(c, 0)) == ssa.Value(req)
+				}
+				qd := &core.PathQuery{Fn: hr, Stop: func(in ssa.Instruction) bool { return in == lu }, Target: func(in ssa.Instruction) bool { return in == hd },
+					EdgeOK: core.ForcedEdges(func(i *ssa.If) int {
+						cond, neg := core.StripNot(i.Cond)
+						cmp, isCmp := core.AsCmp(cond)
+						if !isCmp || (cmp.Op != token.EQL && cmp.Op != token.NEQ) || !isReqType(cmp.X) {
+							return 0
+						}
+						k, isK := core.ConstInt(cmp.Y)
+						if !isK {
+							return 0
+						}
+						s := -1
+						if k == 0 {
+							s = 1
+						}
+						if cmp.Op == token.NEQ {
+							s = -s
+						}
+						if neg {
+							s = -s
+						}
+						return s
+					})}
+				wd := qd.Find()
+				e.R.Check(wd == nil, "C05.R2", "udp/client.Conn.handleReq:lookup-before-dispatch", e.pos(hd), "for a confirmable request the lookup precedes the dispatch on every path", "dispatch is reachable without a cache lookup: "+e.trace(wd))
 				// hit edge: handle not reachable
 				var hitIf *ssa.If
+				hitNeg := false
 				for _, i := range core.IfsOf(hr) {
-					cond, _ := core.StripNot(i.Cond)
+					cond, neg := core.StripNot(i.Cond)
 					if ex, isEx := core.Resolve(cond).(*ssa.Extract); isEx && ex.Tuple == lookups[0].(ssa.Value) && ex.Index == 0 {
-						hitIf = i
+						hitIf, hitNeg = i, neg
 					}
 				}
-				okHit := hitIf != nil && core.OnlyViaEdge(hitIf, false, hd)
+				okHit := false
+				if hitIf != nil {
+					hi := hitIf
+					qh := &core.PathQuery{Fn: hr, From: hi, Target: func(in ssa.Instruction) bool { return in == hd },
+						EdgeOK: func(x *ssa.If, br bool) bool { return x != hi || br == !hitNeg }}
+					okHit = qh.Find() == nil
+				}
 				e.R.Check(okHit, "C05.R2", "udp/client.Conn.handleReq:hit-skips-dispatch", e.pos(hd), "dispatch is reachable only on the cache-miss edge", "a cache hit can still reach the dispatch")
 			}
 			// the duplicate's reply carries the duplicate's own MID
-			if f := e.fn("C05.R2", "udp/client.Conn.checkResponseCache"); f != nil && len(f.Params) == 3 {
+			{
+				// on the hit edge the replayed reply gets the duplicate request's own message ID
 				ok2 := false
-				for _, c := range core.CallsNamed(f, "message/pool.Message.SetMessageID") {
-					if mc, isCall := core.Arg(c, 1).(*ssa.Call); isCall && core.CalleeName(mc) == "message/pool.Message.MessageID" && core.Resolve(core.Arg(mc, 0)) == ssa.Value(f.Params[1]) {
+				for _, c := range core.CallsNamed(hr, "message/pool.Message.SetMessageID") {
+					if mc, isCall := core.Resolve(core.Arg(c, 1)).(*ssa.Call); isCall && core.CalleeName(mc) == "message/pool.Message.MessageID" && core.Resolve(core.Arg(mc, 0)) == ssa.Value(req) {
 						ok2 = true
 					}
 				}
-				e.R.Check(ok2, "C05.R2", "udp/client.Conn.checkResponseCache:reply-gets-duplicate-MID", e.fpos(f), "a replayed reply is given the duplicate request's message ID", "a replayed reply is not matched to the duplicate's message ID")
+				e.R.Check(ok2, "C05.R2", "udp/client.Conn.handleReq:reply-gets-duplicate-MID", e.fpos(hr), "a replayed reply is given the duplicate request's message ID", "a replayed reply is not matched to the duplicate's message ID")
 			}
 		}
 	}
@@ -100,21 +140,21 @@ func runC05(e *Env) {
 	if pr != nil && len(pr.Params) == 4 {
 		adds := core.CallsNamed(pr, "udp/client.Conn.addResponseToCache")
 		if e.want("C05.R3") {
-			var arm *ssa.If
-			for _, i := range core.IfsOf(pr) {
-				cond, _ := core.StripNot(i.Cond)
-				if _, ok := core.CondCall(cond, "udp/client.sendJustAcknowledgeMessage"); ok {
-					arm = i
+			// the bare-ACK arm is where the response's code is set to 0.00 (Empty)
+			var arm ssa.Instruction
+			for _, c := range core.CallsNamed(pr, "message/pool.Message.SetCode") {
+				if k, isC := core.ConstInt(core.Arg(c, 1)); isC && k == 0 {
+					arm = c.(ssa.Instruction)
 				}
 			}
 			if arm == nil {
 				e.R.Fail("C05.R3", "udp/client.Conn.processResponse:bare-ack-cached", e.fpos(pr), "no bare-ACK arm")
 			} else {
-				q := &core.PathQuery{Fn: pr, From: arm.Block().Succs[0].Instrs[0], Stop: core.CallPred("udp/client.Conn.addResponseToCache"), Target: core.IsReturn}
+				q := &core.PathQuery{Fn: pr, From: arm, Stop: core.CallPred("udp/client.Conn.addResponseToCache"), Target: func(in ssa.Instruction) bool {
+					ret, ok := in.(*ssa.Return)
+					return ok && !core.ReturnsNonNilError(ret)
+				}}
 				w := q.Find()
-				if core.CallPred("udp/client.Conn.addResponseToCache")(arm.Block().Succs[0].Instrs[0]) {
-					w = nil
-				}
 				e.R.Check(w == nil, "C05.R3", "udp/client.Conn.processResponse:bare-ack-cached", e.pos(arm), "every path through the bare-ACK arm stores the reply in the cache", "the bare ACK can be produced without being cached: "+e.trace(w))
 			}
 			// piggyback / NON reply: with a modified, non-pong response, both for CON and for NON requests every path to a return stores the reply
